@@ -1,45 +1,57 @@
 // unit `dec_comp` -- the COMPOSITE decoders of yrs: loops whose trip count comes from the input and collections that are
 // pre-allocated from untrusted counts.  Serves C10 ("arbitrary bytes => value or error, time and memory proportional to the
 // input, no panic / abort / stack overflow / unbounded loop; a decoded value can be encoded again") and C09 (round trip of
-// the delete-set layer).  Builds on the proved primitive layer (units lib0, lib0_v2, tags; shared text units/lib0_common/*).
+// the delete-set layer).  Builds on the proved primitive layer (units lib0, lib0_v2, tags; shared text units/lib0_common/*)
+// and on the proved interval algebra (units ids_insert, ids_merge, ids_lift: cross-checked stubs).
 //
 //   units/dec_comp/env.rs   ClientID (stand-in) + the REAL ClientID::decode, allocation budget, sliced traits Decoder / Decode,
 //                           DecoderV1 (real), DecoderV2 (sliced), Decode::decode_v1 (the public entry point), counted lists
-//   units/dec_comp/ids.rs   yrs/src/id_set.rs   Range<u32>::decode, IdRanges<()>::decode, IdSet::decode
+//   units/dec_comp/canon.rs pure lemmas: canonical unit lists (size after one insert, uniqueness), permutations
+//   units/dec_comp/ids.rs   yrs/src/id_set.rs   Range<u32>::decode, IdRanges<()>::decode, IdSet::decode (+ stubs of the callees)
 //   units/dec_comp/sv.rs    yrs/src/state_vector.rs   StateVector::decode, Snapshot::decode
-//   units/dec_comp/aw.rs    yrs/src/sync/awareness.rs  AwarenessUpdate::decode  (+ string stand-ins)
+//   units/dec_comp/aw.rs    yrs/src/sync/awareness.rs  AwarenessUpdate::decode, the REAL Read::read_string
 //   units/dec_comp/any.rs   yrs/src/any.rs      Any::decode / Any::decode_nested (recursive), Read::read_f32 / read_f64 / read_i64
-//   units/dec_comp/enc.rs   Range<u32> / IdRanges<()> / IdSet ::encode, EncoderV1, the round-trip theorems, observations
+//   units/dec_comp/idmap.rs yrs/src/id_map.rs   IdMap<A>::decode (model and contract: see the head of that file)
+//   units/dec_comp/enc.rs   Range<u32> / IdRanges<()> / IdSet ::encode, EncoderV1, the round-trip theorems, "decoded values are
+//                           canonical" theorems, the v2 delete-set register lemma
 //
 // CONTRACTS (per function; every body is the text of /repo, re-extracted on every run)
 //   (a) TOTAL     trait `Decode`: for every wf reader `decode` returns Ok / Err -- no overflow, no out-of-bounds, no failing
-//                 debug_assert!, termination (every loop has a `decreases`; for-loops over ranges terminate by construction);
-//                 it never rewinds and never reads beyond the input (`suffix_of`); PROGRESS: Ok ==> at least one byte was
-//                 consumed, and every loop iteration consumes >= c bytes (invariant `rest().len() + c * i <= s1.len()`;
-//                 c = 2 ranges / id-set items / state-vector pairs / map entries of Any, 3 awareness entries, 1 array
-//                 elements of Any), so the number of iterations is at most |input| / c: linear time.
-//                 `Decode::decode_v1(data: &[u8])` (the public entry point) has NO precondition.
+//                 debug_assert!, termination (every loop has a `decreases`; for-loops over ranges / vectors terminate by
+//                 construction); it never rewinds and never reads beyond the input (`suffix_of`); PROGRESS: Ok ==> at least one
+//                 byte was consumed, and every loop iteration consumes >= c bytes (invariant `rest().len() + c * i <= s1.len()`;
+//                 c = 2 ranges / id-set items / state-vector pairs / map entries of Any / IdMap clients, 3 awareness entries /
+//                 IdMap ranges, 1 array elements of Any / IdMap attribute references), so the number of iterations is at most
+//                 |input| / c.  `Decode::decode_v1(data: &[u8])` (the public entry point) has NO precondition.
 //   (b) BUDGET    every capacity request goes through `vx_budget(decoder).<ctor>(n)` (SUB rules), whose precondition is
 //                 `alloc_budget_ok`: n <= unread input bytes + 1024.
-//   (c) SHAPE     Range: start <= end;  IdRanges / IdSet / StateVector / AwarenessUpdate: |value| * c < bytes consumed (memory
-//                 of the VALUE proportional to the input);  every stored range has start <= end.  NOT guaranteed: canonical
-//                 form, non-empty per-client entries (see OBSERVATIONS in enc.rs: proved counter-examples).
-//                 `res is Ok ==> res.enc_ok()`: a decoded value satisfies the precondition of its encoder.
-//   (d) EXACT     equality with a spec decoder on ANY byte string (None = Err, Some((v, k)) = v from the first k bytes):
-//                 dec_range / dec_ranges / dec_idset / dec_snapshot for v1 decoders (`D::v1()`), dec_sv / dec_au for every
-//                 decoder (they use `Read` methods only).  ROUND TRIP (v1): theorem_range_round_trip,
-//                 theorem_ranges_round_trip, theorem_idset_round_trip: decode(encode(x) ++ tail) == (x, tail) for every x with
-//                 start <= end ranges, 53-bit clients and < 2^32 elements -- canonical or not, whatever order the map
-//                 iterator enumerates the clients in.
+//   (c) SHAPE     Range: start <= end.  IdRanges<()>: CANONICAL (`canon` of units/ids_common/spec.rs: sorted, disjoint, no empty
+//                 range, adjacent ranges coalesced), |value| * 2 < bytes consumed and |value| <= number of ranges on the wire.
+//                 IdSet / Snapshot.delete_set / IdMap: the REPRESENTATION INVARIANT `wf_map` of unit ids_lift (every stored client
+//                 entry canonical and non-empty), clients * 2 < bytes consumed.  StateVector / AwarenessUpdate: |value| * c < bytes
+//                 consumed.  `res is Ok ==> res.enc_ok()`: a decoded value satisfies the precondition of its (v1 / abstract)
+//                 encoder; `lemma_canon_ds_ok`: a canonical list is also inside the PROVED domain of the v2 delete-set writes
+//                 (EncoderV2::write_ds_clock: clock >= ds_curr_val; write_ds_len: len != 0, no overflow -- unit lib0_v2).
+//   (d) EXACT     on ANY byte string, v1 decoders (`D::v1()`): None = Err, Some((v, k)) = v from the first k bytes.
+//                 dec_range: equality.  dec_ranges = the RAW ranges on the wire; the value is THE canonical list that covers exactly
+//                 their clocks (`canon_of`: canon(r) && forall c. covers(r, c) <==> exists i. inr(raw[i], c); unique by
+//                 lemma_canon_unique_unit).  dec_idset = the (client, raw ranges) SECTIONS; the value is THE well-formed set whose
+//                 points are the union of the sections (`idset_of`; unique by lemma_wf_map_unique; repeated clients merged,
+//                 sections without points dropped).  dec_snapshot likewise.  dec_sv / dec_au: equality, for every decoder (they
+//                 use `Read` methods only); dec_au succeeds only if every JSON string is well-formed UTF-8 (`valid_utf8`).
+//                 ROUND TRIP (v1): theorem_range_round_trip, theorem_ranges_round_trip / theorem_idset_wire_round_trip (the wire
+//                 list / sections are read back exactly, canonical or not, whatever order the map iterator enumerates the clients
+//                 in), theorem_ranges_value_round_trip / theorem_idset_round_trip (for CANONICAL / well-formed x every value the
+//                 decoder contract admits for encode(x) ++ tail is x).
 //   Any::decode_nested: (a) for EVERY depth, (b), BOUNDED RECURSION `decreases MAX_DECODE_DEPTH + 1 - depth`.
 //
-// DECODER MODEL  trait `Decoder: Read` is SLICED to reset_ds_cur_val / read_ds_clock / read_ds_len with an ABSTRACT contract
-//   (suffix + progress) that the real bodies of BOTH DecoderV1 and (sliced) DecoderV2 are verified against; a decoder with
+// DECODER MODEL  trait `Decoder: Read` is SLICED to reset_ds_cur_val / read_ds_clock / read_ds_len / read_any with an ABSTRACT
+//   contract (suffix + progress) that the real bodies of BOTH DecoderV1 and (sliced) DecoderV2 are verified against; a decoder with
 //   `v1()` (DecoderV1) additionally has the exact v1 semantics (read_ds_* = u32 var-int, reset = no-op).  (a)-(c) therefore
-//   hold for v1 and v2 input, (d) for v1.  `read_string` is the default `Read::read_string` (DecoderV2 overrides it with a
-//   separate string column: not modelled; only AwarenessUpdate / Any use it and both are decoded from v1 / plain readers).
+//   hold for v1 and v2 input, (d) for v1.  `read_string` is the REAL default `Read::read_string` (DecoderV2 overrides it with a
+//   separate string column whose constructor validates UTF-8 the same way: not modelled).
 //
-// FINDINGS (all reported, all REPAIRED in /repo meanwhile; each is now an ordinary discharged obligation and has a canary)
+// FINDINGS (F-DC-1 .. 13: reported, REPAIRED in /repo meanwhile; each is now an ordinary discharged obligation and has a canary)
 //   F-DC-1 idranges_decode::pre [alloc_budget_ok]  `SmallVec::with_capacity(len as usize)`, len = untrusted u32.
 //          `01 00 FF FF FF FF 0F` (IdSet::decode_v1): 32 GiB request -> "memory allocation of 34359738360 bytes failed", SIGABRT.
 //   F-DC-3 sv_decode::pre [alloc_budget_ok]  `HashMap::with_capacity_and_hasher(len, ..)`.  `FF FF FF FF 0F`: 146 GB request, SIGABRT.
@@ -53,18 +65,49 @@
 //   F-DC-8 Any::decode recursed without depth limit (not expressible as an obligation before the repair; the old measure
 //          `decreases rest().len()` only gave depth <= |input|): 30000 x `75 01` + `7E` (60 001 bytes) overflows an 8 MB stack,
 //          SIGABRT.  Repair: decode_nested(decoder, depth) with MAX_DECODE_DEPTH = 512, now the termination measure.
+//   F-DC-9 (was: observation_decode_not_canonical / observation_decode_empty_entry) IdRanges::decode kept the wire ranges as
+//          received, IdSet::decode overwrote repeated clients and stored empty entries: `01 01 01 00 00` / `01 01 02 05 01 00 01`
+//          decoded fine and panicked in encode_v2.  Repair: sort + `insert` one by one, `insert_range`.  Now: canon / wf_map
+//          postconditions, theorem_decoded_ranges_canonical, theorem_decode_canonicalises_examples, theorem_decode_no_empty_entry.
+//   F-DC-10 Read::read_string built a &str from untrusted bytes with from_utf8_unchecked (the former TRUSTED stand-in claimed
+//          `res is Ok` for every buffer).  Repair: `std::str::from_utf8(..).map_err(..)`; the real body is verified now.
+//   F-DC-11/12/13 IdMap::decode: dangling attribute / attribute-name ids indexed out of bounds, `last_client_id + diff` and
+//          `range_clock + range_len` could overflow, ranges were stored as received.  Repaired; idmap_decode.
 //   NOTE on masking: Verus reports a limited number of errors per function; while F-DC-7 was open, a missing proof hint in
 //   the same function was hidden behind it.  After a repair every obligation of the function has to be looked at again.
+//
+// OPEN FINDINGS (C10 "time / memory proportional to the input"; NOT expressible as a Verus obligation -- cost is not modelled --
+//   measured on the real crate, release build, reproducers in the report of this unit)
+//   F-DC-14 IdMap::decode, introduced by the repair of F-DC-13: n ranges [i, n) of one client, range i carrying one NEW attribute
+//          (14 bytes per range) decode to n pieces [i, i+1) with i + 1 attributes each: the VALUE is quadratic in the input and
+//          the time cubic (`ContentAttributes ==` is a quadratic set comparison, called per insert).  IdMap::<String>::decode_v1:
+//          12.5 KB -> 5.5 MB, 2.0 s;  26.5 KB -> 21.8 MB, 14.5 s;  54.5 KB -> 86.8 MB, 110 s  (x4 memory, x8 time per doubling).
+//   F-DC-15 IdSet::decode, introduced by the repair of F-DC-9: k sections of the SAME client, one range each (6 bytes per section):
+//          every `insert_range` of a repeated client is an O(size) `IdRanges::merge`, so the time is quadratic in the input
+//          (memory stays linear).  IdSet::decode_v1: 0.29 MB -> 3.0 s;  0.59 MB -> 11.7 s;  1.19 MB -> 50.7 s.
 //
 // TRUSTED (each declared with its std-documented contract)
 //   A4   axiom_client_id_ord_key_model / axiom_client_id_hash_key_model: derived Ord / Hash+Eq of ClientID are lawful keys
 //        (same assumptions as units ids_lift / sv; vstd's BTreeMap / HashMap specifications are conditioned on them)
-//   A9   ReadStr::read_string (stand-in of unit tags for `unsafe { from_utf8_unchecked(self.read_buf()?) }`; uninterpreted utf8 / from_utf8)
+//   A9   vx_from_utf8 (`std::str::from_utf8`: Ok(s), s@ == from_utf8(b), IFF valid_utf8(b); uninterpreted valid_utf8 / from_utf8 /
+//        utf8, opaque Utf8ErrorStandIn).  A9b vx_from_utf8_unchecked (`from_utf8_unchecked`, requires valid_utf8: the documented
+//        safety condition) is NOT reached by the current code; it exists so that the regression canary has something to fail.
+//   A10  vx_sort_by_start (`raw.sort_unstable_by_key(|range| range.start)`), vx_sort_entries_by_start
+//        (`entries.sort_by_key(|(range, _)| range.start)`): the result is a permutation of the input (same multiset), ordered by
+//        the key.  Only the permutation half is used: the canonical result does not depend on the order (dropping the sort is
+//        not property-breaking; it is what keeps every `insert` on its O(1) tail path).
 //   A2   vx_arc_str (`Arc<str>::from(&str)`), vx_arc_bytes (`Arc<[u8]>::from(&[u8])`), vx_i64_from_be_bytes, and
 //        assume_specification of f32::from_be_bytes / f64::from_be_bytes (total, value unspecified); opaque types Str / Bytes
+//   STUBS (external_body, contract text CROSS-CHECKED by the extractor against the proving unit on every run):
+//        IdRanges<T>::insert_with (ids_insert), IdRanges<T>::merge (ids_merge), IdSet::insert_range (ids_lift, idset_insert_range),
+//        IdMapInner<T>::insert_range (ids_lift, inner_insert_range).  `IdRanges<()>::insert`, `IdRanges::new / default / is_empty /
+//        from_raw`, `IdMapInner::new / default / len / clients_mut`, `IdSet::new`, `IdMap::new` are RE-VERIFIED here.
 //   R13  ClientID is a stand-in (`ClientID(pub u64)` holding the yjs value); `ClientID::new` carries the real body's
 //        `debug_assert!(value & MASK == 0)` as its precondition, `get` returns the value.  `ClientID::decode` is the real body.
-//   vstd's specifications of Vec / HashMap / BTreeMap / Range iterators; units/ids_common/* and units/lib0_common/* as included.
+//        ContentAttribute<A> is an opaque stand-in with contract-free `new` / `clone` / `==` / `hash`; ContentAttributes<A>,
+//        DeserializeOwned / from_any are ABSTRACT (trait parameters, nothing assumed): see units/dec_comp/idmap.rs.
+//   vstd's specifications of Vec / HashMap / HashSet / BTreeMap / Range and Vec iterators, Seq::to_multiset, Result::map_err,
+//        Option::ok_or, checked_add; units/ids_common/* and units/lib0_common/* as included.
 //   The allocation helpers (VxBudget) are VERIFIED wrappers of the std constructors, not trusted: the budget is a precondition.
 //   `Arc<[Any]>` / `Arc<HashMap<String, Any>>` are modelled as owned `Vec<Any>` / `HashMap<String, Any>` (AnyArr / AnyMap).
 //   `#[derive(Default)] for IdSet` is written out (as in unit ids_lift).
@@ -73,12 +116,26 @@
 //   (-> vx_budget(decoder).<ctor>::<T>), `BuildHasherDefault::default()` -> VxHasher, the hasher type parameter of StateVector,
 //   `Arc<..>` payload spellings and constructors (`.into()`, `Arc::from`, `Arc::new`), `crate::encoding::read::Error` -> Error,
 //   `i64::from_be_bytes` -> wrapper, `(&client_id, block)` -> `(client_id, block)` (reference pattern), field visibility of
-//   DecoderV1.cursor / EncoderV1.buf; INLINE of IdRanges::iter, IdMapInner::iter and `impl From<&[u8]> for DecoderV1`
-//   (accessor bodies checked on every run).  `impl Decode for X` / `impl Encode for X` stay trait impls of the sliced traits.
+//   DecoderV1.cursor / EncoderV1.buf; the two sorts -> A10 and `std::str::from_utf8(buf).map_err(|_| ..)` ->
+//   `vx_from_utf8(buf).map_err(|_e: Utf8ErrorStandIn| ..)` (A9; Verus rejects `|_|`): UNIT-WIDE rules because `|` is the field
+//   separator of an extract line -- each `from=` contains the real closure text, so an edit of a closure makes the rule miss;
+//   IdMap: `ContentAttributes<A>` -> `CA`, `ContentAttributes(attrs)` -> `CA::vx_from_attrs(attrs)`, `attrs: Default::default()` ->
+//   `HashSet::new()`; INLINE of IdRanges::iter, IdMapInner::iter and `impl From<&[u8]> for DecoderV1` (accessor bodies checked
+//   on every run).  `impl Decode for X` / `impl Encode for X` stay trait impls of the sliced traits.  The consuming loops
+//   `for range in raw` / `for (range, attrs) in entries` / `for attr in visited_attributions` are ingested AS THEY ARE (vstd's
+//   vec::IntoIter specification; no R6 lowering needed).
 //
-// NOT COVERED: IdMap<A>::decode (serde_json attributes), Update / Block decoding (pointer core), IndexScope / StickyIndex
-//   (unit sticky), StateVector / AwarenessUpdate / Snapshot / Any ENCODERS and their round trips, Any's result size, the
-//   exact value of floats, stack usage as such (only the recursion depth is bounded), Drop of deeply nested values.
+// NOT EXPRESSIBLE: `requires` on the abstract `Encoder::write_ds_clock / write_ds_len` with a ghost register `ds_cur`.  Between
+//   `reset_ds_cur_val` and `write_ds_clock` the encoders call `write_var` (a method of the shared `Write` / `WriteExt` traits of
+//   units/lib0_common, whose contract only speaks about `out()`), so a generic caller cannot know that the register survives
+//   the call (no frame condition can be added from here).  The connection is made on the spec level instead: `ds_writes_ok`
+//   runs the register over the writes `IdRanges::encode` performs, `lemma_canon_ds_ok` proves it for canonical lists from
+//   register 0, `lemma_non_canon_ds_not_ok` refutes it for the former counter-examples.
+//
+// NOT COVERED: the exact value of IdMap::decode (no spec decoder: serde attributes), Update / Block decoding (pointer core),
+//   IndexScope / StickyIndex (unit sticky), StateVector / AwarenessUpdate / Snapshot / Any / IdMap ENCODERS and their round trips,
+//   Any's result size, the exact value of floats, stack usage as such (only the recursion depth is bounded), Drop of deeply
+//   nested values, running time / memory of the VALUE beyond the element counts above (see OPEN FINDINGS).
 #![allow(unused_imports, unused_variables, unused_mut, dead_code, unused_parens, unused_braces, unused_assignments)]
 use vstd::prelude::*;
 use vstd::slice::*;
@@ -96,7 +153,7 @@ verus! {
    SUB(from=raw.sort_unstable_by_key(|range| range.start);;to=vx_sort_by_start(&mut raw))
    SUB(from=std::str::from_utf8(buf).map_err(|_| Error::UnexpectedValue);;to=vx_from_utf8(buf).map_err(|_e: Utf8ErrorStandIn| Error::UnexpectedValue))
    SUB(from=unsafe { std::str::from_utf8_unchecked(buf) };;to=vx_from_utf8_unchecked(buf))
-   SUB(from=entries.sort_by_key(|(range, _)| range.start);;to=vx_sort_entries_by_start(&mut entries))
+   SUB(from=ranges.sort_unstable_by_key(|(client, range)| (*client, range.start));;to=vx_sort_by_client_start(&mut ranges))
 @*/
 
 /*@include units/lib0_common/base.rs @*/
